@@ -43,9 +43,9 @@ import EpModel.Lemmas.ReadVsSlice
       give: that the two errors are the *same value* up to the offset where `ErrMatch` leaves a choice
       (e.g. which of two crate layers names an ICMPv4 fault, the `len_source` where it may be the slice
       or the limiting field); that part stays with the correspondence check, which runs both doors.
-  Not proved (checked by correspondence + oracle only): Ethernet II start vs ether-type start for the
-  struct families `PacketHeaders` / `LaxPacketHeaders` (C03 / C05 refine the slice families `SlicedPacket` /
-  `LaxSlicedPacket` only; the oracle compares all four families after shifting by 14).
+  Ethernet II start vs ether-type start for the struct families `PacketHeaders` / `LaxPacketHeaders` is
+  proved directly on the model in Props/C06Headers.lean (Lemmas/HeadersShift.lean); the oracle still compares
+  all four families after shifting by 14.
 -/
 namespace EpModel.Props.C06
 open EpModel EpModel.Dec EpModel.Lemmas.Refine EpModel.Lemmas.Copies
